@@ -27,7 +27,8 @@ THEOREMS = ["C18_fold_one_to_one", "C18_fold_count", "C18_fold_kinds", "C18_fold
             "C18_fold_wf", "C18_fold_laminar", "C18_fold_source_order",
             "C18_outline_file_list", "C18_outline_of_file", "C18_outline_entry", "C18_outline_children_order",
             "C18_outline_children_distinct", "C18_outline_slice_replays", "C18_outline_slice_file_list",
-            "C18_outline_source_subseq", "C18_outline_source_complete", "C18_outline_visit", "C18_outline_files_complete"]
+            "C18_outline_source_subseq", "C18_outline_source_complete", "C18_outline_visit", "C18_outline_files_complete",
+            "C18_outline_children"]
 TRUSTED = [
     "Coq 8.16.1 kernel; vm_compute only in the Examples; no axioms (Print Assumptions: closed under the global context)",
     "shared green-tree model coq/model/Tree.v (ranges derived from leaf byte lengths; descendants() = preorder nodes; "
@@ -254,6 +255,9 @@ def run(ctx):
     ctx.cov["files_theorem"] = {"workspaces": stats.get("oix_workspaces", 0), "of_which_multi_file": stats.get("multi_file_workspaces", 0),
                                 "hypotheses_hold (no modelled panic, decls_wf): then per file registered = declared, by C18_outline_files_complete":
                                 stats.get("files_theorem_hypotheses_hold", 0)}
+    ctx.cov["children_theorem"] = {"workspaces": stats.get("oix_workspaces", 0),
+                                   "registration stream of the slice == AST-only visit (evaluated with the extracted model; C18_outline_children proves it whenever no modelled panic)":
+                                   stats.get("children_stream_equal", 0)}
     ctx.cov["source_theorem"] = {"single_file_programs_without_include": stats.get("source_theorem_applicable", 0),
                                  "of_which_count_condition_holds (then registered declarations = source declarations, by C18_outline_source_complete)":
                                  stats.get("source_theorem_counts_agree", 0)}
